@@ -11,9 +11,9 @@ from harness import chelper, cnode
 from finam.interfaces import ComponentStatus as CS
 
 
-def judge(specs, links, order, link_order):
+def judge(specs, links, order, link_order, cache=True):
     F, stuck = cnode.fixpoint(specs, links)
-    out, comps = cnode.run_connect(specs, links, order, link_order)
+    out, comps = cnode.run_connect(specs, links, order, link_order, cache)
     bad = []
     sp = {s[0]: s for s in specs}
     t_start = min(s[3] for s in specs)
@@ -99,7 +99,7 @@ def run_case(case):
             lorders = list(itertools.permutations(range(len(links))))
         for order in orders:
             for lo in lorders:
-                bad, out, stuck, ncalls = judge(specs, links, list(order), list(lo))
+                bad, out, stuck, ncalls = judge(specs, links, list(order), list(lo), case.get("cache", True))
                 res["n"] += 1
                 res["traces"] += 1
                 res["transitions"] += ncalls
@@ -109,7 +109,7 @@ def run_case(case):
                     cnt["expected_stuck"] = cnt.get("expected_stuck", 0) + 1
                 res["nontrivial"] += 1 if ncalls > 2 * len(specs) else 0
                 for clause, detail in bad:
-                    res["violations"].append(viol(dict(kind="connect", clause=clause.split(":")[0], error=clause.split(":")[1] if ":" in clause else None), f"specs={specs} links={links} order={order} link_order={lo}: {clause}: {detail}", dict(shapes=[[specs, links]], order=list(order), link_order=list(lo))))
+                    res["violations"].append(viol(dict(kind="connect", clause=clause.split(":")[0], error=clause.split(":")[1] if ":" in clause else None), f"specs={specs} links={links} order={order} link_order={lo}: {clause}: {detail}", dict(shapes=[[specs, links]], order=list(order), link_order=list(lo), cache=case.get("cache", True))))
     res["sample"] = dict(specs=case["shapes"][0][0], links=case["shapes"][0][1])
     return res
 
@@ -203,6 +203,9 @@ def run(tier, seed, agg):
     shapes += list(two_slot_shapes())
     shapes += list(stuck_plus_arg_shapes())
     cases = [dict(shapes=shapes[i : i + 40], lo_mode="two" if q else "all") for i in range(0, len(shapes), 40)]
+    # the same with ConnectHelper(cache=False): the harness components hand in everything they can on every call, so nothing may depend on the cache
+    nocache = list(single_slot_shapes(2, lambda n: [(0, 0), (1, 0)])) + list(two_slot_shapes()) + list(stuck_plus_arg_shapes())
+    cases += [dict(shapes=nocache[i : i + 40], lo_mode="two" if q else "all", cache=False) for i in range(0, len(nocache), 40)]
     # helper layer: one component, scripted peers, all sequences of connect calls / stepwise provided items / peer events
     for n_in in (0, 1, 2):
         for n_out in (0, 1, 2):
